@@ -191,6 +191,17 @@ func i3Build(r *rng, names []string, line func(*rng, []string) string) *i1Scenar
 			sc.all = append(sc.all, t)
 		}
 	}
+	for l := range bodies {
+		if r.chance(1, 5) {
+			// R2: a multi-byte first line (UTF-8 byte order mark, non-ASCII title)
+			t := r2FirstLineInert(r, names)
+			if r.chance(1, 8) {
+				t = r2FirstLine(r)
+			}
+			bodies[l] = append([]string{t}, bodies[l]...)
+			sc.all = append(sc.all, t)
+		}
+	}
 	var ls []filterlist.RuleList
 	var note []string
 	for j, b := range bodies {
